@@ -23,6 +23,12 @@ R03.e  no function of these modules modifies the object of a mutable default
        of a call must not depend on earlier calls.
 R03.f  no for-loop variable of these modules is read after its loop (a statement
        left one indentation level too shallow sees only the last element).
+R03.g  no container attribute that the solver updates in place is handed to a
+       callee that stores it uncopied (the metadata of a schedule returned
+       earlier must not change with later solves).
+R03.h  variable domains are [0, total duration] and the only linear constraints
+       are the two prescribed ones; any other model is refused (exit 2):
+       whether it still contains the optimum is not decided.
 """
 
 from __future__ import annotations
@@ -48,6 +54,7 @@ MANIFEST = {
         "of the values the solver returns, bounds."
         " Also decided: no function of these modules accumulates into a mutable default argument."
         " Also decided: no for-loop variable of these modules is read after its loop (statement left one indentation level too shallow)."
+        " Also decided: no dict/list the solver updates in place across solves is stored uncopied in a returned schedule; variable domains are [0, total duration] with no extra linear constraints (other models are refused, not passed)."
     ),
     "note": "OR-Tools' CamelCase and snake_case spellings are both recognised. The solver's own correctness is trusted.",
     "technique": "path automaton (rebind-before-use, must-call-before-Solve) + constraint-shape matching + sort-key vs validator-relation agreement",
@@ -127,6 +134,10 @@ def run(ctx):
     solve = cls.methods.get("solve")
     if solve is None:
         raise AnalysisError("ORToolsSolver.solve vanished")
+    from .common import check_state_escape
+
+    chk.rule("R03.g", "no container the solver updates in place across solves is stored, uncopied, in a returned schedule (metadata of an earlier result must not change)")
+    ctx.attempt(check_state_escape, ctx, "R03.g", cls, "the metadata / data of a schedule returned earlier")
     ctx.attempt(_find_roles, ctx, solve)
     chk.analysed["solver_state_roles"] = dict(ROLE)
     eng = ctx.engine(relevant=_rel, max_depth=5, unroll=1, budget=120000)
@@ -215,6 +226,7 @@ def run(ctx):
     if not bad:
         chk.ok("R03.b", solve.qualname, solve.loc(), f"{n_solve} paths to Solve(): all model-building calls precede it")
     ctx.attempt(_shapes, ctx, cls)
+    ctx.attempt(_domains, ctx, cls)
     # integer model data must not pass through the float32 views of the instance
     Fl = ctx.norm.flat(solve, depth=3)
     lossy = [n for n in own_nodes(Fl.node) if isinstance(n, ast.Attribute) and n.attr in ("durations_matrix_array", "machines_matrix_array")]
@@ -232,6 +244,45 @@ def run(ctx):
 
     # ---------------------------------------------------------------- R03.d
     ctx.attempt(_rebuild, ctx, cls)
+
+
+def _domains(ctx, cls):
+    """R03.h - the model admits every feasible schedule: variable domains are
+    [0, H] with H the total duration (a schedule without idle gaps longer than
+    needed never exceeds it), and the only linear constraints are the two the
+    formulation prescribes.  Any narrower domain or further constraint can cut
+    off the optimum while CP-SAT still answers OPTIMAL; whether it does is
+    arithmetic this analysis does not do, so such models are refused."""
+    chk = ctx.chk
+    chk.rule("R03.h", "variable domains are [0, total duration] and no linear constraint beyond end = start + duration and job precedence is added (nothing can cut off the optimum)")
+    solve = cls.methods["solve"]
+    F = ctx.norm.flat(solve, depth=4)
+    ivs = _calls(F, "NewIntVar")
+    if not ivs:
+        raise AnalysisError("no NewIntVar call in the flattened solve")
+    for c in ivs:
+        if len(c.args) < 2:
+            raise AnalysisError(f"{F.loc(c)}: NewIntVar bounds not positional")
+        lo, hi = c.args[0], c.args[1]
+        lo_t, hi_t = ctx.norm.xtext(F, lo).replace(" ", ""), ctx.norm.xtext(F, hi).replace(" ", "")
+        lo_ok = lo_t == "0"
+        hi_ok = hi_t.endswith(".total_duration") and not any(ch in hi_t for ch in "-/(")
+        if not (lo_ok and hi_ok):
+            raise AnalysisError(
+                f"{F.loc(c)}: variable domain [{lo_t[:50]}, {hi_t[:60]}] is not [0, instance.total_duration]: whether it still "
+                "contains an optimal schedule is not decided"
+            )
+    n_add = 0
+    for c in _calls(F, "Add"):
+        a = c.args[0] if c.args else None
+        n_add += 1
+        known = isinstance(a, ast.Compare) and len(a.ops) == 1 and (
+            isinstance(a.ops[0], ast.Eq) and "duration" in ctx.norm.xtext(F, a)
+            or isinstance(a.ops[0], (ast.LtE, ast.GtE)) and _sym_var(ctx, F, a.left) is not None and _sym_var(ctx, F, a.comparators[0]) is not None
+        )
+        if not known:
+            raise AnalysisError(f"{F.loc(c)}: linear constraint `{ast.unparse(a)[:80] if a is not None else '?'}` is not one of the formulation's: whether it cuts off the optimum is not decided")
+    chk.ok("R03.h", solve.qualname, F.loc(ivs[0]), f"{len(ivs)} NewIntVar sites with domain [0, total_duration]; {n_add} Add sites, all of the two prescribed shapes")
 
 
 def _calls(fi, name):
